@@ -8,6 +8,6 @@ EXPLANATION = ("Proved: pair_to_integer / integer_to_pair (key = min*N + max wit
 C_FUNCS = [("tables.c", "pair_to_integer"), ("tables.c", "integer_to_pair"), ("tables.c", "tsk_identity_segments_get_key"),
            ("tables.c", "tsk_ibd_finder_passes_filters"), ("tables.c", "tsk_ibd_finder_init_samples_from_set"),
            ("tables.c", "tsk_ibd_finder_init_between")]
-BOUNDED = [{"name": "ibd_vs_paths", "module": "standins.c19_ibd", "timeout": 900}]
+BOUNDED = [{"name": "ibd_vs_paths", "module": "standins.c19_ibd", "timeout": 900, "asan": "thorough"}]
 UNVERIFIED = ["tsk_ibd_finder_run / find_ibd_segments / add_ancestry, tsk_identity_segments_add_segment, AVL tree (bounded only)"]
 ASSUMPTIONS = ["span and min_span are numbers (not NaN) in passes_filters; double subtraction is uninterpreted"]
